@@ -1700,7 +1700,7 @@ Section Refine.
     - apply (fsel_sel typ J1 J2 C1 found (zipr J2 C2)); auto. intros _ a Ha. apply in_zipr; auto.
     - intros ->. destruct typ as [x| |]; cbn [fsel pos_ok] in *; tauto.
     - intros ->. destruct typ as [x| |]; cbn [fsel] in FS.
-      + destruct FS as [_ (y & J2' & -> & EQ)]. eauto.
+      + destruct FS as [_ (y & J2' & -> & EQ)]. exists x, y, J2'. split; [reflexivity|]. split; [reflexivity|exact EQ].
       + destruct FS as [_ FS]. discriminate.
       + destruct FS as (_ & _ & FS). discriminate.
   Qed.
@@ -1718,15 +1718,200 @@ Section Refine.
       destruct R as [|c C2]; [rewrite app_length in L; cbn in L; lia|]. exists C1, c, C2. rewrite app_length in L. cbn in L. repeat split; lia. }
     destruct typ as [x| |].
     - destruct (items_find_spec its x Hi) as [I1 I2 E H1 H2|I1 y I2 E H1 EQ H2].
-      + destruct (G I1 I2 E) as (C1 & c & C2 & -> & L1 & L2). subst its. exists I1, I2, C1, c, C2, false. repeat split; auto.
-        * rewrite (flatten_at_child I1 I2 C1 c C2 _ L1 L2) in Hs. eapply zipl_all_lt; eauto.
-        * rewrite (flatten_at_child I1 I2 C1 c C2 _ L1 L2) in Hs. rewrite app_assoc in Hs. eapply zipr_lt_all; eauto.
-      + destruct (G I1 (y :: I2) E) as (C1 & c & C2 & -> & L1 & L2). subst its. exists I1, (y :: I2), C1, c, C2, true. repeat split; auto.
-        * rewrite (flatten_at_child I1 (y :: I2) C1 c C2 _ L1 L2) in Hs. eapply zipl_all_lt; eauto.
-        * eauto.
+      + destruct (G I1 I2 E) as (C1 & c & C2 & -> & L1 & L2). subst its. exists I1, I2, C1, c, C2, false.
+        split; [reflexivity|]. split; [reflexivity|]. split; [exact L1|]. split; [exact L2|]. cbn [fsel].
+        rewrite (flatten_at_child I1 I2 C1 c C2 _ L1 L2) in Hs. split.
+        * eapply zipl_all_lt; eauto.
+        * rewrite app_assoc in Hs. eapply zipr_lt_all; eauto.
+      + destruct (G I1 (y :: I2) E) as (C1 & c & C2 & -> & L1 & L2). subst its. exists I1, (y :: I2), C1, c, C2, true.
+        split; [reflexivity|]. split; [reflexivity|]. split; [exact L1|]. split; [exact L2|]. cbn [fsel].
+        rewrite (flatten_at_child I1 (y :: I2) C1 c C2 _ L1 L2) in Hs. split.
+        * eapply zipl_all_lt; eauto.
+        * exists y, I2. split; [reflexivity|exact EQ].
     - destruct (G [] its eq_refl) as (C1 & c & C2 & -> & L1 & L2). destruct C1; [|discriminate].
-      exists [], its, [], c, C2, false. repeat split; auto.
+      exists [], its, [], c, C2, false.
+      split; [reflexivity|]. split; [reflexivity|]. split; [reflexivity|]. split; [exact L2|]. cbn [fsel zipl]. split; reflexivity.
     - destruct (G its [] (eq_sym (app_nil_r its))) as (C1 & c & C2 & -> & L1 & L2). destruct C2; [|discriminate].
-      exists its, [], C1, c, [], false. rewrite app_nil_r. repeat split; auto.
+      exists its, [], C1, c, [], false.
+      split; [symmetry; apply app_nil_r|]. split; [reflexivity|]. split; [exact L1|]. split; [reflexivity|]. cbn [fsel zipr].
+      split; [reflexivity|]. split; reflexivity.
+  Qed.
+  (* ---- the node after growChildAndRemove's restructuring: the search is repeated on it ---- *)
+  Lemma after_grow typ h f (J1 J2 : list A) C1 c C2 found L :
+    rem_ih h -> length C1 = length J1 -> length C2 = length J2 ->
+    Forall (binv h) (C1 ++ c :: C2) -> Forall (fun c0 => lo <= length (n_its c0) <= hi)%nat (C1 ++ c :: C2) ->
+    zipl J1 C1 ++ flatten c ++ zipr J2 C2 = L -> sorted L ->
+    fsel typ (zipl J1 C1) (zipr J2 C2) J2 found -> (lo < length (n_its c))%nat -> (2 * h + 2 <= f)%nat ->
+    exists n' out,
+      remove ltb (S f) (Node (J1 ++ J2) (C1 ++ c :: C2) (idx_of (map fsize (C1 ++ c :: C2)))) typ lo = Some (n', out) /\
+      binv (S h) n' /\ rem_spec typ L (flatten n') out /\ length (n_its n') = length (J1 ++ J2).
+  Proof.
+    intros IH L1 L2 F1 F2 EL Hs FS Big Hf. subst L.
+    rewrite <- (flatten_at_child J1 J2 C1 c C2 (idx_of (map fsize (C1 ++ c :: C2))) L1 L2) in *.
+    apply (remove_big' typ h f J1 J2 C1 c C2 found); auto.
+  Qed.
+
+  Lemma fsel_prefix typ (P R Q J2 : list A) found : fsel typ (P ++ R) Q J2 found -> fsel typ P Q J2 found.
+  Proof.
+    destruct typ as [x| |]; cbn [fsel].
+    - intros [HP H]. split; [|exact H]. intros y Hy. apply HP, in_or_app. left; exact Hy.
+    - intros [E H]. apply app_eq_nil in E as [-> _]. split; [reflexivity|exact H].
+    - auto.
+  Qed.
+
+  (* the separator `sep` right of the child moves away (into the child, or is replaced by a later item):
+     whatever was selected, the repeated search selects the same child and does not find the item in the node *)
+  Lemma fsel_suffix typ (P R Q' I2 J2' : list A) sep found :
+    fsel typ P (sep :: R ++ Q') (sep :: I2) found -> lt_all sep Q' ->
+    (forall a, In a J2' -> In a Q') ->
+    fsel typ P Q' J2' false.
+  Proof.
+    destruct typ as [x| |]; cbn [fsel].
+    - intros [HP H] HS _. split; [exact HP|]. destruct found.
+      + destruct H as (y & J2'' & E & EQ). inversion E; subst. eapply lt_all_eqv; eauto.
+      + intros y Hy. apply H. right. apply in_or_app. right; exact Hy.
+    - intros [-> _] _ _. auto.
+    - intros [E _]. discriminate.
+  Qed.
+  Lemma remove_node typ h fuel its ch :
+    rem_ih h -> length ch = S (length its) -> its <> [] ->
+    Forall (binv h) ch -> Forall (fun c0 => lo <= length (n_its c0) <= hi)%nat ch ->
+    sorted (flatten (Node its ch (idx_of (map fsize ch)))) -> (2 * S h + 2 <= fuel)%nat ->
+    exists n' out, remove ltb fuel (Node its ch (idx_of (map fsize ch))) typ lo = Some (n', out) /\
+      rem_post typ (S h) (Node its ch (idx_of (map fsize ch))) n' out.
+  Proof.
+    intros IH L NE F1 F2 Hs Hf. destruct fuel as [|f]; [lia|].
+    destruct (fsel_init typ h its ch L NE F1 Hs) as (J1 & J2 & C1 & c & C2 & found & -> & -> & L1 & L2 & FS).
+    assert (Hb : (lo <= length (n_its c) <= hi)%nat) by (apply Forall_app in F2 as [_ F2']; inversion F2'; assumption).
+    unfold rem_post. cbn [n_its].
+    destruct (Nat.ltb_spec lo (length (n_its c))) as [Big|Small].
+    { destruct (remove_big' typ h f J1 J2 C1 c C2 found IH L1 L2 F1 F2 Hs FS Big ltac:(lia)) as (n' & out & E & B & RS & LEN).
+      exists n', out. split; [exact E|]. split; [exact B|]. split; [exact RS|]. lia. }
+    assert (Ec : length (n_its c) = lo) by lia. clear Small Hb.
+    destruct f as [|f]; [lia|].
+    pose proof (flatten_at_child J1 J2 C1 c C2 (idx_of (map fsize (C1 ++ c :: C2))) L1 L2) as FL.
+    rewrite FL in Hs. rewrite FL.
+    rewrite remove_internal by (cbn; destruct C1; discriminate). cbn [n_its n_ch n_idx].
+    rewrite (fsel_sel typ J1 J2 C1 found (zipr J2 C2) L1 (node_items_sorted _ _ _ L ltac:(rewrite FL; exact Hs)) FS
+               ltac:(intros _ a Ha; apply in_zipr; auto)).
+    replace (nth_error (C1 ++ c :: C2) (length J1)) with (Some c) by (rewrite <- L1; symmetry; apply nth_error_mid).
+    replace (Nat.leb (length (n_its c)) lo) with true by (symmetry; apply Nat.leb_le; lia).
+    destruct (match length J1 with
+              | O => false
+              | S p => match nth_error (C1 ++ c :: C2) p with Some l => Nat.ltb lo (length (n_its l)) | None => false end
+              end) eqn:LB.
+    - (* steal from the left sibling *)
+      destruct (exists_last_or_nil J1) as [->|(I1 & sep & ->)]; [discriminate LB|].
+      destruct (exists_last_or_nil C1) as [->|(C1' & lft & ->)]; [rewrite app_length in L1; cbn in L1; lia|].
+      assert (L1' : length C1' = length I1) by (rewrite !app_length in L1; cbn in L1; lia).
+      rewrite app_length in LB. cbn [length] in LB. rewrite Nat.add_1_r in LB.
+      rewrite <- app_assoc in LB. cbn [app] in LB. rewrite <- L1', nth_error_mid in LB. apply Nat.ltb_lt in LB.
+      rewrite <- !app_assoc in *. cbn [app] in *.
+      destruct (steal_left_spec h I1 sep J2 C1' lft c C2 L1' L2 F1 F2 LB Ec)
+        as (stolen & lft' & c' & EG & (M & EM1 & EM2) & B1 & B2 & Hb1 & Hb2).
+      replace (length (I1 ++ [sep])) with (S (length I1)) by (rewrite app_length; cbn; lia).
+      rewrite EG.
+      assert (F1' : Forall (binv h) ((C1' ++ [lft']) ++ c' :: C2)).
+      { rewrite <- app_assoc. cbn [app]. apply Forall_app in F1 as [Fa Fb]. inversion Fb as [|? ? _ Fc]; subst. inversion Fc; subst.
+        apply Forall_app. split; [exact Fa|]. constructor; [exact B1|]. constructor; [exact B2|assumption]. }
+      assert (F2' : Forall (fun c0 => lo <= length (n_its c0) <= hi)%nat ((C1' ++ [lft']) ++ c' :: C2)).
+      { rewrite <- app_assoc. cbn [app]. apply Forall_app in F2 as [Fa Fb]. inversion Fb as [|? ? _ Fc]; subst. inversion Fc; subst.
+        apply Forall_app. split; [exact Fa|]. constructor; [exact Hb1|]. constructor; [lia|assumption]. }
+      rewrite (zipl_snoc I1 sep C1' lft L1') in *.
+      destruct (after_grow typ h f (I1 ++ [stolen]) J2 (C1' ++ [lft']) c' C2 found
+                  ((zipl I1 C1' ++ flatten lft ++ [sep]) ++ flatten c ++ zipr J2 C2) IH) as (n' & out & E & B & RS & LEN); auto.
+      + rewrite !app_length. cbn. lia.
+      + rewrite (zipl_snoc I1 stolen C1' lft' L1'), EM1, EM2. rewrite <- !app_assoc. cbn [app]. rewrite <- ?app_assoc. reflexivity.
+      + rewrite (zipl_snoc I1 stolen C1' lft' L1'). rewrite EM1 in FS.
+        replace (zipl I1 C1' ++ (flatten lft' ++ stolen :: M) ++ [sep])
+          with ((zipl I1 C1' ++ flatten lft' ++ [stolen]) ++ (M ++ [sep])) in FS by (rewrite <- !app_assoc; cbn [app]; rewrite <- ?app_assoc; reflexivity).
+        eapply fsel_prefix; eauto.
+      + lia.
+      + lia.
+      + rewrite <- !app_assoc in E. cbn [app] in E. exists n', out. split; [exact E|]. split; [exact B|]. split; [exact RS|].
+        rewrite !app_length in *. cbn [length] in *. lia.
+    - destruct J2 as [|sep I2].
+      + (* the last child: merged into its left sibling *)
+        destruct C2; [|discriminate].
+        destruct (exists_last_or_nil J1) as [->|(I1 & sep & ->)]; [exfalso; apply NE; reflexivity|].
+        destruct (exists_last_or_nil C1) as [->|(C1' & lft & ->)]; [rewrite app_length in L1; cbn in L1; lia|].
+        assert (L1' : length C1' = length I1) by (rewrite !app_length in L1; cbn in L1; lia).
+        rewrite app_length in LB. cbn [length] in LB. rewrite Nat.add_1_r in LB.
+        rewrite <- app_assoc in LB. cbn [app] in LB. rewrite <- L1', nth_error_mid in LB. apply Nat.ltb_ge in LB.
+        rewrite <- !app_assoc in *. cbn [app] in *.
+        assert (El : length (n_its lft) = lo).
+        { apply Forall_app in F2 as [_ Fb]. inversion Fb; subst. lia. }
+        destruct (merge_spec_node h I1 sep [] C1' lft c [] (S (length I1)) L1' eq_refl F1 F2 El Ec) as (merged & EG & EM & Bm & Lm).
+        { rewrite <- L1', nth_error_mid. apply Nat.ltb_ge. lia. }
+        { apply andb_false_iff. left. apply Nat.ltb_ge. rewrite app_length. cbn. lia. }
+        { replace (Nat.leb (length (I1 ++ [sep])) (S (length I1))) with true by (symmetry; apply Nat.leb_le; rewrite app_length; cbn; lia).
+          reflexivity. }
+        replace (length (I1 ++ [sep])) with (S (length I1)) by (rewrite app_length; cbn; lia).
+        rewrite EG.
+        rewrite (zipl_snoc I1 sep C1' lft L1') in *.
+        destruct (after_grow typ h f I1 [] C1' merged [] found
+                    ((zipl I1 C1' ++ flatten lft ++ [sep]) ++ flatten c ++ zipr [] []) IH) as (n' & out & E & B & RS & LEN); auto.
+        * apply Forall_app in F1 as [Fa _]. apply Forall_app. split; [exact Fa|]. constructor; [exact Bm|constructor].
+        * apply Forall_app in F2 as [Fa _]. apply Forall_app. split; [exact Fa|]. constructor; [lia|constructor].
+        * rewrite EM. rewrite <- !app_assoc. cbn [app]. reflexivity.
+        * eapply fsel_prefix; eauto.
+        * lia.
+        * lia.
+        * exists n', out. split; [exact E|]. split; [exact B|]. split; [exact RS|].
+          rewrite !app_length in *. cbn [length] in *. lia.
+      + destruct C2 as [|rgt C2']; [discriminate|].
+        assert (L2' : length C2' = length I2) by (cbn in L2; lia).
+        assert (HSEP : lt_all sep (flatten rgt ++ zipr I2 C2')).
+        { cbn [zipr] in Hs. rewrite app_assoc in Hs. apply (sorted_mid ltb) in Hs as (_ & H & _ & _). exact H. }
+        assert (Hbr : (lo <= length (n_its rgt) <= hi)%nat).
+        { apply Forall_app in F2 as [_ Fb]. inversion Fb as [|? ? _ Fc]; subst. inversion Fc; subst. assumption. }
+        destruct (Nat.ltb lo (length (n_its rgt))) eqn:RB.
+        * (* steal from the right sibling *)
+          apply Nat.ltb_lt in RB.
+          destruct (steal_right_spec h J1 sep I2 C1 c rgt C2' L1 L2' F1 F2 LB RB Ec)
+            as (stolen & c' & rgt' & EG & (M & EM1 & EM2) & B1 & B2 & Hb1 & Hb2).
+          rewrite EG.
+          destruct (after_grow typ h f J1 (stolen :: I2) C1 c' (rgt' :: C2') false
+                      (zipl J1 C1 ++ flatten c ++ zipr (sep :: I2) (rgt :: C2')) IH) as (n' & out & E & B & RS & LEN); auto.
+          -- cbn. lia.
+          -- apply Forall_app in F1 as [Fa Fb]. inversion Fb as [|? ? _ Fc]; subst. inversion Fc; subst.
+             apply Forall_app. split; [exact Fa|]. constructor; [exact B1|]. constructor; [exact B2|assumption].
+          -- apply Forall_app in F2 as [Fa Fb]. inversion Fb as [|? ? _ Fc]; subst. inversion Fc; subst.
+             apply Forall_app. split; [exact Fa|]. constructor; [lia|]. constructor; [exact Hb2|assumption].
+          -- cbn [zipr]. rewrite EM1, EM2. rewrite <- !app_assoc. cbn [app]. rewrite <- ?app_assoc. reflexivity.
+          -- cbn [zipr] in FS |- *. rewrite EM1 in FS, HSEP. rewrite <- !app_assoc in FS, HSEP. cbn [app] in FS, HSEP.
+             apply (fsel_suffix typ (zipl J1 C1) M (stolen :: flatten rgt' ++ zipr I2 C2') I2 (stolen :: I2) sep found FS).
+             ++ intros a Ha. apply HSEP, in_or_app. right; exact Ha.
+             ++ intros a [<-|Ha]; [left; reflexivity|right; apply in_or_app; right; apply in_zipr; auto].
+          -- lia.
+          -- lia.
+          -- exists n', out. split; [exact E|]. split; [exact B|]. split; [exact RS|].
+             rewrite !app_length in *. cbn [length] in *. lia.
+        * (* merge with the right sibling *)
+          apply Nat.ltb_ge in RB.
+          assert (Er : length (n_its rgt) = lo) by lia.
+          destruct (merge_spec_node h J1 sep I2 C1 c rgt C2' (length J1) L1 L2' F1 F2 Ec Er LB) as (merged & EG & EM & Bm & Lm).
+          { apply andb_false_iff. right.
+            replace (C1 ++ c :: rgt :: C2') with ((C1 ++ [c]) ++ rgt :: C2') by (rewrite <- app_assoc; reflexivity).
+            replace (S (length J1)) with (length (C1 ++ [c])) by (rewrite app_length; cbn; lia).
+            rewrite nth_error_mid. apply Nat.ltb_ge. lia. }
+          { replace (Nat.leb (length (J1 ++ sep :: I2)) (length J1)) with false by (symmetry; apply Nat.leb_gt; rewrite app_length; cbn; lia).
+            reflexivity. }
+          rewrite EG.
+          destruct (after_grow typ h f J1 I2 C1 merged C2' false
+                      (zipl J1 C1 ++ flatten c ++ zipr (sep :: I2) (rgt :: C2')) IH) as (n' & out & E & B & RS & LEN); auto.
+          -- apply Forall_app in F1 as [Fa Fb]. inversion Fb as [|? ? _ Fc]; subst. inversion Fc; subst.
+             apply Forall_app. split; [exact Fa|]. constructor; [exact Bm|assumption].
+          -- apply Forall_app in F2 as [Fa Fb]. inversion Fb as [|? ? _ Fc]; subst. inversion Fc; subst.
+             apply Forall_app. split; [exact Fa|]. constructor; [lia|assumption].
+          -- cbn [zipr]. rewrite EM. rewrite <- !app_assoc. cbn [app]. reflexivity.
+          -- cbn [zipr] in FS.
+             apply (fsel_suffix typ (zipl J1 C1) (flatten rgt) (zipr I2 C2') I2 I2 sep found FS).
+             ++ intros a Ha. apply HSEP, in_or_app. right; exact Ha.
+             ++ intros a Ha. apply in_zipr; auto.
+          -- lia.
+          -- lia.
+          -- exists n', out. split; [exact E|]. split; [exact B|]. split; [exact RS|].
+             rewrite !app_length in *. cbn [length] in *. lia.
   Qed.
 End Refine.
